@@ -81,7 +81,7 @@ def merge(outs, key):
     return h
 
 
-def kv_check(ctx, module, theorems, relevant, what, assumptions, procs=None, cases=None, oracle=None):
+def kv_check(ctx, module, theorems, relevant, what, assumptions, procs=None, cases=None, oracle=None, pre_finish=None):
     """generic flow for the kv-based properties.
     relevant(op_line) -> bool : which differing lines are this property's business
     oracle(op_line, impl_line, model_line) -> str|None : property failure visible on the implementation alone"""
@@ -176,4 +176,6 @@ def kv_check(ctx, module, theorems, relevant, what, assumptions, procs=None, cas
         "read_tier_histogram": merge(outs, "read_tiers"), "cases_with_difference": diffs, "corpus_cases": corpus_n,
         "traces_validated_against_impl": ncases,
     })
+    if pre_finish:
+        pre_finish(ctx, cov)
     return finish(ctx, "proof", cov, assumptions)
